@@ -34,7 +34,7 @@ func init() {
 			}
 			return []runner.Phase{
 				{Name: "cut-enum", Variant: "plain", Cases: m, Run: c07enum, CaseTimeout: 120 * time.Second, Required: []string{"cuts_injected", "frames_checked"}},
-				{Name: "mixed", Variant: "race", Cases: n, Run: c07mixed, CaseTimeout: 180 * time.Second, Required: []string{"cuts_injected", "frames_checked", "coalesced_scenarios", "direct_scenarios"}},
+				{Name: "mixed", Variant: "race", Cases: n, Run: c07mixed, CaseTimeout: 180 * time.Second, Required: []string{"cuts_injected", "frames_checked", "coalesced_scenarios", "direct_scenarios", "stall_scenarios"}},
 			}
 		},
 	})
@@ -55,7 +55,7 @@ func c07report(c *runner.Ctx, ec *echoCfg, res *echoResult) {
 	for k := range res.outcomes {
 		c.SetAdd("outcomes", k)
 	}
-	wit := map[string]interface{}{"scenario": echoKey(ec), "cut_at": ec.writeCutAt, "outcomes": res.outcomes, "seed": ec.seed}
+	wit := map[string]interface{}{"scenario": echoKey(ec), "cut_at": ec.writeCutAt, "stall_at": ec.stallAt, "write_timeout": ec.writeTimeout.String(), "outcomes": res.outcomes, "seed": ec.seed}
 	for _, p := range res.wireProblems {
 		key := p.key
 		if strings.HasPrefix(key, "C07:bytes-after-short-write") {
@@ -116,14 +116,22 @@ func c07mixed(c *runner.Ctx, i int) {
 	ec.pLate = []int{0, 5}[r.Intn(2)]
 	ec.intensity = []int{0, 20, 50}[r.Intn(3)]
 	ec.pErrFrame = 10
-	if r.Intn(4) != 0 {
+	switch r.Intn(8) {
+	case 0, 1:
+	case 2, 3:
+		// the peer stops reading at an offset: the write blocks until the write deadline, which leaves a torn
+		// frame and a *timeout* error (a net.Error that calls itself temporary)
+		ec.stallAt = int64(100 + r.Intn(12000))
+		ec.writeTimeout = time.Duration(5+r.Intn(30)) * time.Millisecond
+		c.Add("stall_scenarios", 1)
+	default:
 		ec.writeCutAt = int64(100 + r.Intn(12000))
 	}
 	res := runEcho(c, ec)
 	if res == nil {
 		return
 	}
-	c.Eval(runner.H("mixed", echoKey(ec), ec.writeCutAt, res.signature), ec.callers > 1 || ec.writeCutAt >= 0)
+	c.Eval(runner.H("mixed", echoKey(ec), ec.writeCutAt, ec.stallAt, res.signature), ec.callers > 1 || ec.writeCutAt >= 0 || ec.stallAt > 0)
 	c07report(c, ec, res)
 	if c.WantSample() {
 		c.Sample(map[string]interface{}{"scenario": echoKey(ec), "cut_at": ec.writeCutAt, "outcomes": res.outcomes, "frames_on_wire": res.wireFrames, "bytes_on_wire": res.wireBytes})
